@@ -346,11 +346,12 @@ def ob_crash_image(ex, name, U=2, HU=2, N=2, mode="kill", sync_mode="sync"):
                     posts["at return the in-memory map equals what recovery of the image yields"] = z3.And(
                         [z3.And(pk[i] == post["pk"][i], z3.Implies(pk[i], hk[i] == post["hk"][i])) for i in range(w.U)])
                     wal = f.load(sw.wal_ref)
-                    nx1 = wal.fields[1].t
+                    from structs import fget
+                    nx1 = fget(ex, wal, "WalManager", "next_op_version").t
                     posts["at return the next version is past every appended record"] = nx1 == sw.next + len(img.recs)
-                    wopt = wal.fields[3]
+                    wopt = fget(ex, wal, "WalManager", "active_writer")
                     if isinstance(wopt, VEnum) and 1 in wopt.payloads and wopt.payloads[1]:
-                        ws1 = wopt.payloads[1][0].fields[1].t
+                        ws1 = fget(ex, wopt.payloads[1][0], "SegmentWriter", "segment_id").t
                         Nn = sw.N_int
                         inseg = lambda v: z3.And(ws1 * Nn < v, v <= (ws1 + 1) * Nn)
                         posts["at return the active writer sits on the segment of the last or of the next version"] = z3.Implies(
